@@ -131,7 +131,7 @@ End TakeThreads.
 (** ** merge of n members, member i = thread i *)
 
 Inductive mg_pc : Type :=
-| MgAtEndedLoad                (* greeting: before [ended.load()]           merge.rs:179 *)
+| MgAtEndedLoad                (* greeting: talkback published, before [ended.load()]   merge.rs:183-189 *)
 | MgAtStartInc                 (* before [start_count.fetch_add(1)]         merge.rs:188 *)
 | MgInGreet                    (* inside the sink's Handshake handler *)
 | MgInData                     (* inside the sink's Data handler *)
@@ -160,7 +160,8 @@ Section MergeThreads.
 
   Definition mg_init (qs : nat -> list val) (fins : nat -> final) : mg_state :=
     {| mgs_start := 0; mgs_endc := 0; mgs_ended := false;
-       mgs_tbs := fun _ => false; mgs_stopped := fun _ => false;
+       (* a greeting member publishes its talkback before its first instrumented access *)
+       mgs_tbs := fun t => t <? n; mgs_stopped := fun _ => false;
        mgs_th := fun t => {| mg_pcv := if t <? n then MgAtEndedLoad else MgFinished;
                              mg_q := qs t; mg_fin := fins t |};
        mgs_tr := [] |}.
@@ -186,14 +187,16 @@ Section MergeThreads.
           end
       end.
 
-  (** terminate every member j <> t whose slot is set, in index order *)
+  (** terminate every member j <> t whose slot is set, in index order; the talkback is taken out of
+      its slot (swap), so that exactly one party disposes a member *)
   Fixpoint mg_stop_siblings (k : nat) (t : nat) (s : mg_state) : mg_state :=
     match k with
     | 0 => s
     | S k' =>
         let s' := mg_stop_siblings k' t s in
         if negb (Nat.eqb k' t) && mgs_tbs s k'
-        then mg_emit (s' <| mgs_stopped := upd (mgs_stopped s') k' true |>) t (TUp k' UT)
+        then mg_emit (s' <| mgs_stopped := upd (mgs_stopped s') k' true |>
+                         <| mgs_tbs := upd (mgs_tbs s') k' false |>) t (TUp k' UT)
         else s'
     end.
 
@@ -202,9 +205,14 @@ Section MergeThreads.
     match mg_pcv th with
     | MgAtEndedLoad =>
         if mgs_ended s then
-          mg_set (mg_emit (s <| mgs_stopped := upd (mgs_stopped s) t true |>) t (TUp t UT)) t
-                 (th <| mg_pcv := MgFinished |>)
-        else mg_set (s <| mgs_tbs := upd (mgs_tbs s) t true |>) t (th <| mg_pcv := MgAtStartInc |>)
+          (* the output ended while this member was greeting: it disposes itself unless the ending
+             party already took its talkback out of the slot *)
+          if mgs_tbs s t then
+            mg_set (mg_emit (s <| mgs_stopped := upd (mgs_stopped s) t true |>
+                               <| mgs_tbs := upd (mgs_tbs s) t false |>) t (TUp t UT)) t
+                   (th <| mg_pcv := MgFinished |>)
+          else mg_set s t (th <| mg_pcv := MgFinished |>)
+        else mg_set s t (th <| mg_pcv := MgAtStartInc |>)
     | MgAtStartInc =>
         let sc := S (mgs_start s) in
         let s1 := s <| mgs_start := sc |> in
